@@ -862,3 +862,121 @@ def unit_raw_rows():
                                     "interface.field_names_and_lengths": ModelContract(m_fnl)}, "label": "format " + fmt})
         return out
     return ProofUnit("validio.Reader._raw_rows", "Reader._raw_rows: dispatch on the data format, passing the format's own settings", ["C16", "C17", "C13", "C12", "C15"], make, None)
+
+
+# ---------------------------------------------------------------- Reader.__init__ / validate_rows, Writer.write_rows / close
+def unit_reader_init():
+    def mk(source_kind, cid_kind):
+        def setup(ex, st):
+            fields, c1 = fresh(UFList(FIELD), "fields"); st.pc.extend(c1)
+            df = Ref("DataFormat"); st.heap[df.oid] = {"_format": fresh(STR, "fmt")[0], "_is_valid": True}
+            cid = Ref("Cid"); st.heap[cid.oid] = {"_data_format": df, "_field_formats": fields}
+            on_error = fresh(STR, "on_error")[0]; st.pc.append(z3.Or(on_error.z == "continue", on_error.z == "raise", on_error.z == "yield"))
+            vu = fresh(Opt(INT), "validate_until")[0]; OI = sort_of(Opt(INT)); st.pc.append(z3.Or(OI.is_none(vu.z), OI.val(vu.z) >= 0))
+            # precondition (from Location.__init__'s assert): a path / stream name is a non-empty string
+            if source_kind == "path": src = fresh(STR, "source_path")[0]; st.pc.append(z3.Length(src.z) > 0)
+            elif source_kind == "named": nm = fresh(STR, "stream_name")[0]; st.pc.append(z3.Length(nm.z) > 0); src = Ref("Stream"); st.heap[src.oid] = {"name": nm}
+            else: src = Ref("Stream"); st.heap[src.oid] = {}
+            cid_arg = cid if cid_kind == "cid" else fresh(STR, "cid_path")[0]
+            self = Ref("Reader"); st.heap[self.oid] = {}
+            st.frames[-1].env.update({"self": self, "cid_or_path": cid_arg, "source_data_stream_or_path": src, "on_error": on_error, "validate_until": vu})
+            st.ghost.update({"this": self, "cid": cid, "cid_arg": cid_arg, "src": src, "on_error": on_error, "vu": vu, "fields": fields, "cid_read_from": None})
+        def m_cid(ex, st, info, args, kw):
+            # Cid(path): InterfaceError / OSError-free contract of Cid.read is in contracts/interface.py; here: the CID read from that path, or a refusal
+            sb = st.copy(); yield from raise_new(ex, sb, "InterfaceError")
+            st.ghost["cid_read_from"] = args[0]; yield st, st.ghost["cid"]
+        def c_bound(ex, st):
+            g = st.ghost; o = st.heap[g["this"].oid]; loc = o.get("_location"); lo = st.heap[loc.oid] if isinstance(loc, Ref) else {}
+            static = (o.get("_cid") is g["cid"] and o.get("_source_data_stream_or_path") is g["src"] and o.get("_on_error") is g["on_error"] and o.get("_validate_until") is g["vu"]
+                      and o.get("accepted_rows_count", 0) is None and o.get("rejected_rows_count", 0) is None and o.get("_is_closed") is False
+                      and isinstance(loc, Ref) and loc.cls == "Location" and lo.get("_has_cell") is True
+                      and (cid_kind == "cid" or g["cid_read_from"] is g["cid_arg"]))
+            if not static: return Sym(BOOL, z3.BoolVal(False))
+            fp = lo.get("file_path")
+            if source_kind == "path": pz = z3.BoolVal(fp is g["src"])
+            elif source_kind == "named": pz = z3.BoolVal(fp is st.heap[g["src"].oid]["name"])
+            else: pz = z3.BoolVal(fp == "<io>")
+            return Sym(BOOL, z3.And(pz, lift(o["_expected_item_count"]).z == g["fields"].length, lift(lo["_line"]).z == 0, lift(lo["_cell"]).z == 0))
+        c = Contract("validio.Reader.__init__", setup,
+                returns=[Clause(c_bound, "bound-to-the-given-cid-source-error-mode-and-validation-limit-with-a-fresh-location-at-the-first-row-and-one-expected-item-per-field", props=["C04", "C06", "C07", "C08"])],
+                raises={"InterfaceError": [Clause(lambda ex, st: Sym(BOOL, z3.BoolVal(cid_kind == "path")), "only-a-CID-given-as-path-can-be-refused", props=["C09"])]},
+                expect=["return"] + (["InterfaceError"] if cid_kind == "path" else []), raises_only_props=["C10"])
+        return {"contract": c, "label": "source=%s cid=%s" % (source_kind, cid_kind), "callees": {"class:Cid": m_cid},
+                "assumptions": ["Cid(path) is used through the contract of Cid.read (contracts/interface.py)", "a stream without a name attribute raises AttributeError on .name (Python semantics of the heap model)"]}
+    def make(ctx): return [mk(s, c) for s in ("path", "named", "anonymous") for c in ("cid", "path")]
+    return ProofUnit("validio.Reader.__init__", "Reader.__init__: binds cid / source / on_error / validate_until, fresh Location, counters unset, expected item count", ["C04", "C06", "C07", "C08", "C10"], make, None)
+
+
+def unit_validate_rows():
+    def setup(ex, st):
+        self = Ref("Reader"); st.heap[self.oid] = {}
+        rows, c = fresh(UFList(UFList(STR)) if False else UFList(STR), "rows"); st.pc.extend(c)
+        st.frames[-1].env.update({"self": self}); st.ghost.update({"rows": rows, "rows_called": 0, "rows_failed": False, "fail_at": fresh(INT, "fail_at")[0]})
+    def m_rows(ex, st, recv, args, kw):
+        st.ghost["rows_called"] = Sym(INT, G(st, "rows_called") + 1)
+        def raise_fn(ex_, s): 
+            s.ghost["rows_failed"] = True
+            yield from raise_new(ex_, s, "DataError")
+        yield st, FallibleIter(st.ghost["rows"], st.ghost["fail_at"], raise_fn)
+    def make(ctx):
+        c = Contract("validio.Reader.validate_rows", setup,
+                returns=[Clause("rows_called == 1 and _i0 == len(rows) and not rows_failed", "drains-rows()-exactly-once-to-its-end", props=["C06", "C07"])],
+                raises={"DataError": [Clause("rows_failed", "an-error-only-if-rows()-raised-it", props=["C06", "C10"])]},
+                loops={0: LoopSpec(invariants=["rows_called == 1", "not rows_failed"], havoc={"_": STR})},
+                expect=["return", "DataError"], n_loops=1, raises_only_props=["C10"])
+        return {"contract": c, "callees": {"ref:Reader.rows": m_rows}, "assumptions": ["Reader.rows is used through its verified contract (validio.Reader.rows units): a finite sequence that may raise a DataError at any position"]}
+    return ProofUnit("validio.Reader.validate_rows", "Reader.validate_rows: consumes rows() once, completely; errors are those of rows()", ["C06", "C07", "C10"], make, None)
+
+
+def unit_writer_write_rows():
+    def setup(ex, st):
+        self = Ref("Writer"); st.heap[self.oid] = {}
+        rows, c = fresh(UFList(INT), "rows"); st.pc.extend(c)       # rows abstracted to their identities
+        st.frames[-1].env.update({"self": self, "rows_to_write": rows}); st.ghost.update({"rows": rows, "written": 0, "failed_at": -1})
+    def m_write_row(ex, st, recv, args, kw):
+        i = lift(st.frames[-1].env["_i0"]).z
+        ex.obligations.append(Obligation("write_row-receives-the-rows-in-order-each-once", st.pc, z3.And(lift(args[0]).z == st.ghost["rows"].at(i), G(st, "written") == i), "protocol", props=["C14"]))
+        sb = st.copy(); sb.ghost["failed_at"] = Sym(INT, i)
+        yield from raise_new(ex, sb, "DataError")
+        st.ghost["written"] = Sym(INT, G(st, "written") + 1); yield st, None
+    def make(ctx):
+        c = Contract("validio.Writer.write_rows", setup,
+                returns=[Clause("written == len(rows)", "every-row-is-passed-to-write_row", props=["C14"])],
+                raises={"DataError": [Clause("failed_at >= 0 and written == failed_at", "stops-at-the-first-rejected-row-with-all-earlier-rows-written", props=["C14"])]},
+                loops={0: LoopSpec(invariants=["written == _i0", "failed_at == -1"], havoc={"row_to_write": INT}, ghost_havoc={"written": INT})},
+                expect=["return", "DataError"], n_loops=1, raises_only_props=["C10"])
+        return {"contract": c, "callees": {"ref:Writer.write_row": m_write_row}, "assumptions": ["Writer.write_row is used through its verified contract (validio.Writer.write_row)"]}
+    return ProofUnit("validio.Writer.write_rows", "Writer.write_rows: rows go to write_row in order, each once; the first rejection stops the loop", ["C14", "C10"], make, None)
+
+
+def unit_writer_close():
+    def mk(has_writer):
+        def setup(ex, st):
+            w = Ref("DelimitedRowWriter") if has_writer else None
+            if w is not None: st.heap[w.oid] = {}
+            self = Ref("Writer"); st.heap[self.oid] = {"_delegated_writer": w}
+            st.frames[-1].env.update({"self": self}); st.ghost.update({"this": self, "base_closed": 0, "writer_closed": 0, "base_failed": False, "w": w})
+        def m_base_close(ex, st, fn, args, kw):
+            st.ghost["base_closed"] = Sym(INT, G(st, "base_closed") + 1)
+            ex.obligations.append(Obligation("end-checks-run-before-the-target-is-closed", st.pc, G(st, "writer_closed") == 0, "protocol", props=["C14", "C20"]))
+            sb = st.copy(); sb.ghost["base_failed"] = True; yield from raise_new(ex, sb, "CheckError")
+            yield st, None
+        def m_writer_close(ex, st, recv, args, kw):
+            st.ghost["writer_closed"] = Sym(INT, G(st, "writer_closed") + 1)
+            ex.obligations.append(Obligation("closes-the-delegated-writer-it-holds", st.pc, z3.BoolVal(recv is st.ghost["w"]), "protocol", props=["C14"]))
+            yield st, None
+        n = 1 if has_writer else 0
+        c = Contract("validio.Writer.close", setup,
+                returns=[Clause("base_closed == 1 and writer_closed == %d and this._delegated_writer is None and not base_failed" % n, "end-checks-once-then-the-delegated-writer-closed-once-and-dropped", props=["C14", "C20"])],
+                raises={"CheckError": [Clause("base_failed and writer_closed == %d and this._delegated_writer is None" % n, "a-failed-end-check-still-closes-the-delegated-writer", props=["C14", "C20"])]},
+                expect=["return", "CheckError"], raises_only_props=["C10"])
+        return {"contract": c, "label": "with delegated writer" if has_writer else "already closed", "callees": {"validio.BaseValidator.close": ModelContract(m_base_close), "ref:BaseValidator.close": m_base_close_ref(m_base_close),
+                                                    "ref:DelimitedRowWriter.close": m_writer_close},
+                "assumptions": ["BaseValidator.close is used through its verified contract (validio.BaseValidator.close); the row writer's close() does not raise"]}
+    def make(ctx): return [mk(True), mk(False)]
+    return ProofUnit("validio.Writer.close", "Writer.close: end checks first, delegated writer closed exactly once even when an end check fails", ["C14", "C20", "C10"], make, None)
+
+
+def m_base_close_ref(m):
+    def f(ex, st, recv, args, kw): yield from m(ex, st, None, args, kw)
+    return f
